@@ -287,11 +287,19 @@ macro_rules! multi_arm_impl {
     ($reg:expr, $vs:expr, $f:expr, $nt:expr; $($x:ident : $T:ident),+) => {{
         let reg: &mut Reg = $reg;
         let vs: &[u32] = $vs;
+        if $f == "tuple_distinct" {
+            // the tuple trait's own predicate
+            let d = <($($T),+) as mahf::state::registry::MultiStateTuple>::distinct();
+            r("bool", d as i64, $nt)
+        } else {
         let outcome: Result<Result<i64, mahf::StateError>, String> = {
-            let got = if $f == "get_multiple_mut" {
-                $crate::util::caught(|| Ok(reg.get_multiple_mut::<($($T),+)>()))
-            } else {
-                Ok(reg.try_get_multiple_mut::<($($T),+)>())
+            // every public entry point: the panicking and the checked registry method, and the (safe, public)
+            // method of the tuple trait itself
+            let got = match $f {
+                "get_multiple_mut" => $crate::util::caught(|| Ok(reg.get_multiple_mut::<($($T),+)>())),
+                "try_get_multiple_mut" => Ok(reg.try_get_multiple_mut::<($($T),+)>()),
+                "tuple_try_get_mut" => Ok(<($($T),+) as mahf::state::registry::MultiStateTuple>::try_get_mut(reg)),
+                other => panic!("unknown multi-borrow form {other}"),
             };
             match got {
                 Err(p) => Err(p),
@@ -304,9 +312,12 @@ macro_rules! multi_arm_impl {
                             distinct &= ptrs[i] != ptrs[j];
                         }
                     }
-                    let mut k = 0;
-                    $( **$x = vs[k]; k += 1; )+
-                    let _ = k;
+                    // (aliasing references are reported, never written through)
+                    if distinct {
+                        let mut k = 0;
+                        $( **$x = vs[k]; k += 1; )+
+                        let _ = k;
+                    }
                     Ok(Ok(distinct as i64))
                 }
             }
@@ -315,13 +326,14 @@ macro_rules! multi_arm_impl {
             Err(_) => r("panic", $crate::util::NOVAL, $nt),
             Ok(Err(e)) => r(err_kind(&e), $crate::util::NOVAL, $nt),
             Ok(Ok(distinct)) => {
-                // read every written value back through an ordinary lookup
+                // read every written value back through an ordinary lookup from the same view
                 let mut k = 0;
                 let mut back = true;
                 $( back &= reg.try_get_value::<$T>().map(|v| v == vs[k]).unwrap_or(false); k += 1; )+
                 let _ = k;
                 r("ok", (distinct == 1 && back) as i64, $nt)
             }
+        }
         }
     }};
 }
@@ -344,8 +356,9 @@ fn run_body(sess: &mut Session, state: &mut St, in_hold: bool) -> Option<(Value,
                 let ts: Vec<String> = a["ts"].as_array().unwrap().iter().map(|x| x.as_str().unwrap().to_string()).collect();
                 let vs: Vec<u32> = a["vs"].as_array().unwrap().iter().map(|x| x.as_u64().unwrap() as u32).collect();
                 let f = a["f"].as_str().unwrap();
+                let d = a["d"].as_u64().unwrap() as usize;
                 let key = ts.join(",");
-                let res = multi_gen::dispatch(&mut **state, &key, &vs, f, nt)
+                let res = multi_gen::dispatch(ancestor_mut(&mut **state, d), &key, &vs, f, nt)
                     .unwrap_or_else(|| panic!("tuple {key} not instantiated"));
                 sess.emit(state, &a, res);
             }
@@ -486,7 +499,8 @@ impl Source for RandomSrc {
             0..=29 => shared(rng),
             30..=44 => {
                 // multi-borrow
-                let f = if rng.gen_bool(0.8) { "try_get_multiple_mut" } else { "get_multiple_mut" };
+                let f = *["try_get_multiple_mut", "try_get_multiple_mut", "tuple_try_get_mut", "tuple_try_get_mut",
+                          "get_multiple_mut", "tuple_distinct"].choose(rng).unwrap();
                 let key = if self.big {
                     multi_gen::KEYS[rng.gen_range(0..multi_gen::KEYS.len())]
                 } else {
@@ -499,7 +513,7 @@ impl Source for RandomSrc {
                 };
                 let ts: Vec<&str> = key.split(',').collect();
                 let vs: Vec<u32> = ts.iter().map(|_| rng.gen_range(0..self.nvals)).collect();
-                bact("multi", "-", NOVAL, NOVAL, 0, f, json!(ts), json!(vs))
+                bact("multi", "-", NOVAL, NOVAL, d, f, json!(ts), json!(vs))
             }
             45..=53 if info.held < self.maxhold => bact("hold_enter", t, NOVAL, NOVAL, 0, "-", e.clone(), e),
             54..=56 => bact("inner", t, v, NOVAL, 0, if rng.gen_bool(0.5) { "ok" } else { "fail" }, e.clone(), e),
